@@ -186,8 +186,15 @@ func pipeResultReader(message any, reader *messages.Reader, codec messages.Codec
 	var errorCode int32
 	var errorMessage string
 
-	if m.Message, err = reader.ReadMessage(codec); err != nil {
+	// 结果可能不携带消息（失败结果、超时等），以一个存在标记区分
+	var hasMessage bool
+	if err = reader.ReadInto(&hasMessage); err != nil {
 		return err
+	}
+	if hasMessage {
+		if m.Message, err = reader.ReadMessage(codec); err != nil {
+			return err
+		}
 	}
 
 	if err = reader.ReadInto(&m.Id, &errorCode, &errorMessage); err != nil {
@@ -219,8 +226,14 @@ func pipeResultReader(message any, reader *messages.Reader, codec messages.Codec
 func pipeResultWriter(message any, writer *messages.Writer, codec messages.Codec) (err error) {
 	m := message.(*PipeResult)
 
-	if err = writer.WriteMessage(m.Message, codec); err != nil {
+	// 失败结果（例如超时）不携带消息：写入存在标记，而不是把 nil 当作消息去编码
+	if err = writer.WriteFrom(m.Message != nil); err != nil {
 		return err
+	}
+	if m.Message != nil {
+		if err = writer.WriteMessage(m.Message, codec); err != nil {
+			return err
+		}
 	}
 
 	var errorCode int32
